@@ -201,7 +201,9 @@ def o4_o5(model: Model, rep: Report):
     K = model.cls("OpenQLCircuitFactoryManager")
     f = K.resolve("construct")
     ev = Evaluator(model, inline_methods=False)
-    ps = PathEnumerator(ev).function_paths(f, self_cls=K)
+    pe = PathEnumerator(ev)
+    pe.single_use_any = True       # pieces of the walk split off into one-caller helpers are read in place
+    ps = pe.function_paths(f, self_cls=K)
     s = sym(f.self_name)
     circ = sym(f.param_names[1])
     construct = "OpenQLCircuitFactoryManager.construct"
